@@ -375,6 +375,11 @@ def judge_case(ctx, case, R, M):
     # ---- the Lean hypothesis `refsResolve` is the input class the harness computes independently
     if M is not None and M["hyp"] != (fid is None):
         ctx.add_drift(dict(base, queries=[]), {"class": fid}, {"refsResolve": M["hyp"]}, "hypothesis of C11_roundtrip_partial vs finding class")
+    if M is not None and M["hypInput"] and not M["hyp"]:
+        ctx.add_drift(dict(base, queries=[]), {"keysInjective_and_argsNoDup": True}, {"refsResolve": False},
+                      "input-level hypothesis does not imply the program-level one")
+    if M is not None:
+        ctx.hist["hypInput_true" if M["hypInput"] else "hypInput_false"] = ctx.hist.get("hypInput_true" if M["hypInput"] else "hypInput_false", 0) + 1
     # ---- program shape tie
     if M is not None:
         Mp = M["program"]
@@ -415,6 +420,9 @@ def judge_case(ctx, case, R, M):
             Mo = cc.canon_M(q, M["orig"][i])
             if Mo != S:
                 ctx.add_drift(sub, S, Mo, f"core model vs real model, query {q[0]}")
+        if fid and Mv is not None and not (cg.answer_exact(R["R"][i]) and cg.answer_exact(Mv)):
+            Mv = None   # the rebuilt (wrong) model left the exact-double range: R and M cannot be compared exactly
+            ctx.hist["finding_inexact_R"] = ctx.hist.get("finding_inexact_R", 0) + 1
         ctx.judge(sub, R["R"][i], S, Mv, finding=fid, what=f"round trip, query {q[0]}")
 
 
